@@ -61,6 +61,8 @@ struct Snap {
     out: (Vec<usize>, Vec<u64>),
     loss: u64,
     param_grads: Vec<G>,
+    /// the gradient stored on the handle the forward pass returned (a result of untracked operands holds none)
+    out_grad: G,
     input_grad: G,
     target_grad: G,
     teacher_grads: Vec<G>,
@@ -88,7 +90,7 @@ impl ModelRouteCase {
             drop(cur);
         }
         for (i, l) in layers.iter_mut().enumerate() {
-            if self.freeze_parity < 2 && i % 2 == self.freeze_parity as usize {
+            if (self.freeze_parity < 2 && i % 2 == self.freeze_parity as usize) || self.freeze_parity == 3 {
                 for p in l.parameters() {
                     p.stop_tracking();
                 }
@@ -147,7 +149,7 @@ impl ModelRouteCase {
             err.backward(None);
             loss = err.sum_all();
         }
-        let mut snap = Snap { out: bits(&out), loss: (loss as f64).to_bits(), param_grads: vec![], input_grad: grad_of(&x), target_grad: grad_of(&target), teacher_grads: vec![grad_of(&tw), grad_of(&tb)], params_after: vec![] };
+        let mut snap = Snap { out: bits(&out), loss: (loss as f64).to_bits(), out_grad: grad_of(&out), param_grads: vec![], input_grad: grad_of(&x), target_grad: grad_of(&target), teacher_grads: vec![grad_of(&tw), grad_of(&tb)], params_after: vec![] };
         drop(out);
         // read the parameter gradients; then (optionally) remove one through a clone handle; then update
         if via_model {
@@ -156,7 +158,7 @@ impl ModelRouteCase {
             drop(m);
         }
         for (i, l) in layers.iter_mut().enumerate() {
-            let frozen = self.freeze_parity < 2 && i % 2 == self.freeze_parity as usize;
+            let frozen = (self.freeze_parity < 2 && i % 2 == self.freeze_parity as usize) || self.freeze_parity == 3;
             for (pi, p) in l.parameters().into_iter().enumerate() {
                 let g = grad_of(p);
                 // a parameter whose tracking was off when the layer used it receives nothing; one that was tracked and
@@ -221,6 +223,8 @@ impl CaseKind for ModelRouteCase {
                     ("model-output", format!("Model::forward gives {:?}, the layers applied by hand {:?}", show(&Some(m.out.clone())), show(&Some(h.out.clone()))))
                 } else if h.loss != m.loss {
                     ("model-loss", format!("Model::backward returns {:?}, sum(cost(output, target)) by hand is {:?}", f64::from_bits(m.loss), f64::from_bits(h.loss)))
+                } else if h.out_grad != m.out_grad {
+                    ("model-output-gradient", format!("gradient stored on the array the forward pass returned: through Model {:?}, by hand {:?}", show(&m.out_grad), show(&h.out_grad)))
                 } else if h.input_grad != m.input_grad {
                     ("model-input-gradient", format!("gradient of the input: through Model {:?}, by hand {:?}", show(&m.input_grad), show(&h.input_grad)))
                 } else if h.target_grad != m.target_grad {
@@ -259,7 +263,7 @@ pub fn route_cases(oracle: &str, seed: u64, thorough: bool) -> Vec<ModelRouteCas
         for &batch in batches {
             for tk in 0..3u8 {
                 for tr in 0..4u8 {
-                    for fz in [2u8, 0, 1] {
+                    for fz in [2u8, 0, 1, 3] {
                         let softmax_last = matches!(specs.last(), Some(LayerSpec::Dense { act: Act::Softmax, .. }));
                         let i = v.len() as u64;
                         v.push(ModelRouteCase {
